@@ -20,6 +20,18 @@ CLAIMED = {
         "covered by composition of the per-node obligations, not executed). One known finding: nested operator expressions lose their parentheses "
         "(`(a + b) * c` -> `a + b * c`), recorded in known_findings.json; any other mis-grouping or operand/operator mix-up is still reported.",
    ref="DESIGN.md section 0.5, C01"),
+ "C03": dict(
+   cat="model_checking", tech="enum-level symbolic execution of rustc MIR + SMT (z3): rule bodies of the type checker with the symbol table's queries as uninterpreted calls and names as symbolic strings",
+   text="Solver-based, FIVE rule bodies of the property: (e) names and returns (check_ident, check_return): a name found by no scope is reported once as unknown and typed Unknown, a found "
+        "variable gets its declared type; a returned value (Unit for a bare return) incompatible with the declared return type is reported once; (a) `name = value` (check_assignment): which scopes are searched for an existing binding, immutable existing variable -> mutation "
+        "error, mutable -> none, otherwise exactly one new symbol; (b) `expr?` (check_try): non-Result operand reported and typed Unknown, incompatible error types reported, compatible "
+        "ones not; (c) match exhaustiveness over enums (check_match_exhaustiveness): an error iff no wildcard / binding arm and some variant is named by no constructor pattern, for 0..=3 "
+        "(thorough 4) variants x arms with symbolic names; (d) model / class construction (check_model_or_class_constructor_call): exactly one error per duplicate, unknown, "
+        "missing-required and ill-typed field, for 0..=2 (thorough 3) arguments x declared fields with symbolic names. Every answer of lookup / lookup_local / get / types_compatible is arbitrary.",
+   note="Kernel-only: unknown names, call / return / argument type rules, trait adoption (`@requires`, required methods), the symbol table's own scope walking, and the LOCATION of the "
+        "diagnostics are NOT covered; constructor patterns written with a `::` path and Result / Option subjects are outside (c). One known finding: the assignment rule searches the "
+        "current scope only (known_findings.json) - re-assigning an immutable outer binding from a nested block passes `incan --check`; any other deviation is still reported.",
+   ref="DESIGN.md section 0.5, C03"),
  "C06": dict(
    cat="model_checking", tech="MIR->SMT parity obligations (cvc5/z3) + Kani/CBMC harnesses on the core string kernels and their run-time wrappers",
    text="Solver-based, bounded, KERNEL of the property: the functions the compile-time evaluator calls (incan_core numeric kernels, incan_core::strings::"
@@ -122,7 +134,6 @@ CLAIMED = {
 
 NA = {
  "C02": "the oracle is rustc on generated text; a solver cannot encode rustc and the generator is unreachable as for C01",
- "C03": "every rule is a TypeChecker method over SymbolTable (HashMap scopes, dozens of inserts at construction); out of CBMC's reach by the HashMap measurement",
  "C08": "needs formatter -> lexer -> parser on symbolic ASTs; measured: formatter alone on a one-function AST > 25 min, round trip on a 1-char literal > 19 min",
  "C09": "same pipeline twice; --check/--diff not writing files is file-system behaviour with no encodable unit",
  "C10": "needs two lexer runs on symbolic text; measured: one run on 3 symbolic layout characters does not finish (20+ min, 6 GB)",
@@ -143,7 +154,7 @@ m = {
  "engines": [
    {"name": "E1 kani", "path": "kani/", "serves_properties": [c for c in ("C01", "C05", "C07", "C11", "C13", "C14", "C19") if c in claimed],
     "kind_free_text": "Kani 0.68 / CBMC 6.11 proof harnesses in an external crate with path dependencies on /repo; counterexamples replayed by replay/ (same harness bodies, native, dev+release)"},
-   {"name": "E2 mirsmt", "path": "mirsmt/", "serves_properties": [c for c in ("C01", "C04", "C05", "C06", "C07", "C11", "C13", "C14", "C17") if c in claimed],
+   {"name": "E2 mirsmt", "path": "mirsmt/", "serves_properties": [c for c in ("C01", "C03", "C04", "C05", "C06", "C07", "C11", "C13", "C14", "C17") if c in claimed],
     "kind_free_text": "own symbolic executor over rustc's -Zunpretty=mir dump of the working tree, emitting SMT-LIB for cvc5 1.0 / z3 4.8.12"},
  ],
  "checks": [],
@@ -159,7 +170,7 @@ for pid in sorted(CLAIMED):
             "thorough_cmd": f"./check {pid} --tier thorough",
             "evidence_file": f"/verif/evidence/{pid}.json",
             "replay_cmd_template": f"./check {pid} --replay {{path}}",
-            "engine": {"C04": "E2 mirsmt + E1 kani", "C05": "E1 kani + E2 mirsmt", "C06": "E2 mirsmt + E1 kani", "C01": "E2 mirsmt + E1 kani", "C07": "E2 mirsmt + E1 kani", "C13": "E1 kani + E2 mirsmt", "C11": "E1 kani + E2 mirsmt", "C14": "E1 kani + E2 mirsmt", "C17": "E2 mirsmt"}.get(pid, "E1 kani"),
+            "engine": {"C04": "E2 mirsmt + E1 kani", "C05": "E1 kani + E2 mirsmt", "C06": "E2 mirsmt + E1 kani", "C01": "E2 mirsmt + E1 kani", "C07": "E2 mirsmt + E1 kani", "C13": "E1 kani + E2 mirsmt", "C11": "E1 kani + E2 mirsmt", "C14": "E1 kani + E2 mirsmt", "C17": "E2 mirsmt", "C03": "E2 mirsmt"}.get(pid, "E1 kani"),
             "level_claimed": {"category": c["cat"], "text": c["text"], "design_ref": c["ref"]},
             "level_note": c["note"],
             "technique": c["tech"],
